@@ -7,11 +7,12 @@ package main
 // resolved constructs (callee objects, field names, literal types), not on source text.
 
 import (
-	"sort"
 	"fmt"
 	"go/ast"
 	"go/token"
 	"go/types"
+	"regexp"
+	"sort"
 	"strings"
 )
 
@@ -36,10 +37,10 @@ const (
 
 type emitSel struct {
 	kind  emitKind
-	name  string // function name or "pkgSuffix.Type"
-	field string // for emAppendLit: "Field=ConstName"; for emAssignField: field name
-	argIs string // optional: for emCall — some argument's text must contain this
-	text  string // optional: the emitted literal/call text must contain this (e.g. a constant message)
+	name  string   // function name or "pkgSuffix.Type"
+	field string   // for emAppendLit: "Field=ConstName"; for emAssignField: field name
+	argIs string   // optional: for emCall — some argument's text must contain this
+	text  string   // optional: the emitted literal/call text must contain this (e.g. a constant message)
 	args  []string // optional, for emCall: positional argument texts ("" = any) that must be contained
 }
 
@@ -113,7 +114,7 @@ func findEmissions(fn *Func, sel emitSel) []ast.Node {
 						if sel.argIs != "" {
 							hit := false
 							for _, ia := range inner.Args {
-								if exprStr(ia) == sel.argIs {
+								if sameText(fn, exprStr(ia), sel.argIs) {
 									hit = true
 								}
 							}
@@ -145,7 +146,7 @@ func findEmissions(fn *Func, sel emitSel) []ast.Node {
 					if sel.argIs != "" {
 						hit := false
 						for _, a := range call.Args {
-							if strings.Contains(exprStr(a), sel.argIs) {
+							if containsText(fn, exprStr(a), sel.argIs) {
 								hit = true
 							}
 						}
@@ -155,7 +156,7 @@ func findEmissions(fn *Func, sel emitSel) []ast.Node {
 					}
 					if sel.args != nil {
 						for i, want := range sel.args {
-							if want != "" && (i >= len(call.Args) || !strings.Contains(exprStr(call.Args[i]), want)) {
+							if want != "" && (i >= len(call.Args) || !containsText(fn, exprStr(call.Args[i]), want)) {
 								return true
 							}
 						}
@@ -198,7 +199,7 @@ func findEmissions(fn *Func, sel emitSel) []ast.Node {
 						if sel.argIs != "" {
 							hit := false
 							for _, ia := range inner.Args {
-								if exprStr(ia) == sel.argIs {
+								if sameText(fn, exprStr(ia), sel.argIs) {
 									hit = true
 								}
 							}
@@ -214,7 +215,7 @@ func findEmissions(fn *Func, sel emitSel) []ast.Node {
 			if as, ok := n.(*ast.AssignStmt); ok && len(as.Lhs) == len(as.Rhs) {
 				for i, l := range as.Lhs {
 					if id, ok := ast.Unparen(l).(*ast.Ident); ok && (id.Name == sel.name || sel.name == "") {
-						if sel.argIs == "" || exprStr(as.Rhs[i]) == sel.argIs {
+						if sel.argIs == "" || sameText(fn, exprStr(as.Rhs[i]), sel.argIs) {
 							out = append(out, as)
 						}
 					}
@@ -224,7 +225,7 @@ func findEmissions(fn *Func, sel emitSel) []ast.Node {
 			if as, ok := n.(*ast.AssignStmt); ok {
 				for i, l := range as.Lhs {
 					if s, ok := ast.Unparen(l).(*ast.SelectorExpr); ok && s.Sel.Name == sel.field {
-						if sel.argIs == "" || (len(as.Lhs) == len(as.Rhs) && strings.Contains(exprStr(as.Rhs[i]), sel.argIs)) {
+						if sel.argIs == "" || (len(as.Lhs) == len(as.Rhs) && containsText(fn, exprStr(as.Rhs[i]), sel.argIs)) {
 							out = append(out, as)
 						}
 					}
@@ -398,16 +399,30 @@ func atomMatches(fn *Func, a *Atom, g guard) bool {
 			}
 		}
 	case gCmp:
-		if _, ok := e.(*ast.BinaryExpr); ok {
-			if cmpText(e) == g.name {
+		if be0, ok := e.(*ast.BinaryExpr); ok {
+			if sameText(fn, cmpText(e), g.name) {
 				return a.Pol == g.pol
+			}
+			// len(x) == 0  ≡  !(len(x) > 0);  len(x) != 0  ≡  len(x) > 0
+			if c, isC := ast.Unparen(be0.X).(*ast.CallExpr); isC && isLenCall(info, c) && exprStr(be0.Y) == "0" && (be0.Op == token.EQL || be0.Op == token.NEQ) {
+				if sameText(fn, cmpText(&ast.BinaryExpr{X: be0.X, Op: token.GTR, Y: be0.Y}), g.name) {
+					if be0.Op == token.EQL {
+						return a.Pol != g.pol
+					}
+					return a.Pol == g.pol
+				}
+			}
+			if c, isC := ast.Unparen(be0.X).(*ast.CallExpr); isC && isLenCall(info, c) && exprStr(be0.Y) == "0" && be0.Op == token.GTR {
+				if sameText(fn, cmpText(&ast.BinaryExpr{X: be0.X, Op: token.EQL, Y: be0.Y}), g.name) {
+					return a.Pol != g.pol
+				}
 			}
 			// negated spelling: a == b false ≡ a != b true
 			if be := e.(*ast.BinaryExpr); true {
 				neg := map[token.Token]token.Token{token.EQL: token.NEQ, token.NEQ: token.EQL, token.LSS: token.GEQ, token.GEQ: token.LSS, token.GTR: token.LEQ, token.LEQ: token.GTR}
 				if nop, ok := neg[be.Op]; ok {
 					alt := cmpText(&ast.BinaryExpr{X: be.X, Op: nop, Y: be.Y})
-					if alt == g.name {
+					if sameText(fn, alt, g.name) {
 						return a.Pol != g.pol
 					}
 				}
@@ -598,8 +613,8 @@ type row struct {
 	disj  []string // if set: the nearest enclosing if-condition is exactly this disjunction (normalised comparison texts)
 	emit  emitSel
 	need  []guard
-	min   int      // minimum number of emission sites expected
-	exact []string // if set: the set of comparison/field atoms allowed as *data filters* at the emission (no others)
+	min   int             // minimum number of emission sites expected
+	exact []string        // if set: the set of comparison/field atoms allowed as *data filters* at the emission (no others)
 	live  map[string]bool // if set: with these atoms fixed (text -> truth) the emission must still be reachable (the guards may not be stronger)
 	why   string
 }
@@ -747,7 +762,7 @@ func runRows(prop string) func(p *Prog, r *Report) {
 							}
 							txt := cmpText(a.E)
 							for _, ex := range rw.exact {
-								if txt == ex || lastSel(a.E) == ex {
+								if sameText(fn, txt, ex) || lastSel(a.E) == ex {
 									allowed = true
 								}
 							}
@@ -770,7 +785,7 @@ func runRows(prop string) func(p *Prog, r *Report) {
 							if a.E == nil {
 								return false, false
 							}
-							return liveLookup(rw.live, atomKey(fn, a))
+							return liveLookup(fn, rw.live, atomKey(fn, a))
 						})
 						if !canT {
 							var ks []string
@@ -829,18 +844,29 @@ func checkDisjunction(p *Prog, fn *Func, em ast.Node, want []string) string {
 		have[a] = true
 	}
 	var missing, extra []string
-	wantSet := map[string]bool{}
 	for _, w := range want {
-		wantSet[w] = true
-		if !have[w] {
+		found := false
+		for _, a := range alts {
+			if sameText(fn, a, w) {
+				found = true
+			}
+		}
+		if !found {
 			missing = append(missing, w)
 		}
 	}
 	for _, a := range alts {
-		if !wantSet[a] {
+		found := false
+		for _, w := range want {
+			if sameText(fn, a, w) {
+				found = true
+			}
+		}
+		if !found {
 			extra = append(extra, a)
 		}
 	}
+	_ = have
 	if len(missing) == 0 && len(extra) == 0 {
 		return ""
 	}
@@ -893,10 +919,15 @@ func atomKey(fn *Func, a *Atom) string {
 
 // liveLookup: value of an atom under a row's live assignment; keys may be written with the
 // full operand text or with its last selector only, as == or != nil.
-func liveLookup(live map[string]bool, key string) (bool, bool) {
+func liveLookup(fn *Func, live map[string]bool, key string) (bool, bool) {
 	try := func(k string) (bool, bool) {
 		if v, ok := live[k]; ok {
 			return v, true
+		}
+		for lk, v := range live {
+			if sameText(fn, k, lk) {
+				return v, true
+			}
 		}
 		// opposite spelling
 		if strings.HasSuffix(k, " == nil") {
@@ -959,4 +990,132 @@ func possible(f *Formula, assign func(a *Atom) (bool, bool)) (canTrue, canFalse 
 		}
 		return ct, cf
 	}
+}
+
+// ---- rename-tolerant text comparison -----------------------------------------------------
+
+var tokRe = regexp.MustCompile("\"(?:[^\"\\\\]|\\\\.)*\"|`[^`]*`|'(?:[^'\\\\]|\\\\.)*'|[A-Za-z_][A-Za-z0-9_]*|[^A-Za-z_\"'`]+")
+
+func isIdentTok(t string) bool {
+	c := t[0]
+	return c == '_' || (c >= 'A' && c <= 'Z') || (c >= 'a' && c <= 'z')
+}
+
+// localNames: receiver, parameters and local variables declared in fn's outermost function.
+func localNames(fn *Func) map[string]bool {
+	root := fn
+	for root.Parent != nil {
+		root = root.Parent
+	}
+	if root.locals != nil {
+		return root.locals
+	}
+	out := map[string]bool{}
+	root.localTypes = map[string][]types.Type{}
+	info := root.Info()
+	if root.Decl != nil {
+		if root.Decl.Recv != nil {
+			for _, f := range root.Decl.Recv.List {
+				for _, n := range f.Names {
+					out[n.Name] = true
+					if o := info.ObjectOf(n); o != nil {
+						root.localTypes[n.Name] = append(root.localTypes[n.Name], o.Type())
+					}
+				}
+			}
+		}
+	}
+	var node ast.Node = root.Body
+	if root.Decl != nil {
+		node = root.Decl
+	}
+	ast.Inspect(node, func(n ast.Node) bool {
+		if id, ok := n.(*ast.Ident); ok {
+			if v, ok := info.Defs[id].(*types.Var); ok && !v.IsField() {
+				out[id.Name] = true
+				root.localTypes[id.Name] = append(root.localTypes[id.Name], v.Type())
+			}
+		}
+		return true
+	})
+	// type-switch bindings are implicit objects: collect their names too
+	ast.Inspect(node, func(n ast.Node) bool {
+		if ts, ok := n.(*ast.TypeSwitchStmt); ok {
+			if as, ok := ts.Assign.(*ast.AssignStmt); ok && len(as.Lhs) == 1 {
+				if id, ok := as.Lhs[0].(*ast.Ident); ok {
+					out[id.Name] = true
+				}
+			}
+		}
+		return true
+	})
+	root.locals = out
+	return out
+}
+
+// sameText: code text equals the row's text, up to a consistent renaming of local variables
+// of fn into names that no longer exist in fn (the row was written with the old names). A
+// name that still exists in fn is never matched by a different one, so swapping one live
+// variable for another is not hidden.
+func sameText(fn *Func, code, row string) bool {
+	if code == row {
+		return true
+	}
+	ct, rt := tokRe.FindAllString(code, -1), tokRe.FindAllString(row, -1)
+	if len(ct) != len(rt) {
+		return false
+	}
+	return tokensMatch(fn, ct, rt, map[string]string{})
+}
+
+func tokensMatch(fn *Func, ct, rt []string, m map[string]string) bool {
+	locals := localNames(fn)
+	used := map[string]bool{}
+	for _, v := range m {
+		used[v] = true
+	}
+	for i := range ct {
+		c, r := ct[i], rt[i]
+		if c == r {
+			continue
+		}
+		if !isIdentTok(c) || !isIdentTok(r) {
+			return false
+		}
+		if !locals[c] {
+			return false
+		}
+		if locals[r] {
+			return false // the row's name still exists in the function: not a rename
+		}
+		if prev, ok := m[c]; ok {
+			if prev != r {
+				return false
+			}
+			continue
+		}
+		if used[r] {
+			return false
+		}
+		m[c] = r
+		used[r] = true
+	}
+	return true
+}
+
+// containsText: some window of the code text matches the row text under sameText.
+func containsText(fn *Func, code, row string) bool {
+	if strings.Contains(code, row) {
+		return true
+	}
+	ct, rt := tokRe.FindAllString(code, -1), tokRe.FindAllString(row, -1)
+	if len(rt) == 0 || len(rt) > len(ct) {
+		return false
+	}
+	for i := 0; i+len(rt) <= len(ct); i++ {
+		if tokensMatch(fn, ct[i:i+len(rt)], rt, map[string]string{}) {
+			return true
+		}
+	}
+	return false
 }
